@@ -444,7 +444,7 @@ pub fn run(case: &str, st: &mut Stats) -> Outcome {
             n_unfold(n, &mut nu);
             if cu != nu { fails.push(format!("entry {k}: shape through the C accessors {cu} differs from the native diagram {nu}")); }
             if bdd_is_true(c) != n.is_true() || bdd_is_false(c) != n.is_false() || bdd_is_const(c) != n.is_const() { fails.push(format!("entry {k}: is_true/is_false/is_const differ between C and native")); }
-            if !n.is_const() && bdd_topvar(c) != n.var_safe().unwrap().value() { fails.push(format!("entry {k}: bdd_topvar differs from the native top variable")); }
+            if !n.is_const() && !bdd_is_const(c) && bdd_topvar(c) != n.var_safe().unwrap().value() { fails.push(format!("entry {k}: bdd_topvar differs from the native top variable")); }
             if bdd_count_nodes(c) != n.count_nodes() { fails.push(format!("entry {k}: bdd_count_nodes differs from native count_nodes")); }
             // counts
             let cm = robdd_model_count(m, c);
